@@ -137,6 +137,27 @@ func RunCheck(id string, tier Tier) int {
 	}
 	wg.Wait()
 
+	postNotes := map[string]any{}
+	if pr, ok := c.(PostRunner); ok {
+		fs, notes := pr.PostRun(tier)
+		for k, v := range notes {
+			postNotes[k] = v
+		}
+		m.failures = append(m.failures, fs...)
+		m.failCount += int64(len(fs))
+	}
+	// failures of leg "harness" are problems of the machinery, not of kvql
+	{
+		var keep []Failure
+		for _, f := range m.failures {
+			if f.Leg == "harness" {
+				m.harnessErr = append(m.harnessErr, f.Sig+": "+f.Case+" "+f.Observed)
+			} else {
+				keep = append(keep, f)
+			}
+		}
+		m.failures = keep
+	}
 	exhaustive := !m.timedOut && len(m.unitsDone) == nUnits
 	// ---- judge failures ---------------------------------------------------
 	kf := LoadFindings()
@@ -233,6 +254,9 @@ func RunCheck(id string, tier Tier) int {
 		cov["not_exhaustive_reason"] = fmt.Sprintf("soft deadline of %s reached or units lost; %d of %d units fully explored", budget, len(m.unitsDone), nUnits)
 	}
 	for k, v := range m.counters {
+		cov[k] = v
+	}
+	for k, v := range postNotes {
 		cov[k] = v
 	}
 	if info.Level == "model_checking" {
@@ -515,7 +539,7 @@ func RunReduce(id string) int {
 	for _, f := range fails {
 		// confirm: must fail on each of 5 replays
 		ok := true
-		for i := 0; i < 5; i++ {
+		for i := 0; i < 5 && !c.Info().SkipConfirm; i++ {
 			if g := c.Replay(f.Data); g == nil {
 				ok = false
 				break
